@@ -56,7 +56,8 @@ CHECKS = {
                 text="Kani/CBMC decides for all values that representative programs of every trait family still compute the reference results when fields/variants/types/parameters carry the "
                      "expansion's own identifiers (also user items called like the generics of nested helper functions), the use site shadows prelude and core names through a glob import, and field types "
                      "and the derived types themselves have wrong-answer inherent methods named like the trait methods.",
-                note=E1_NOTE + " Restricted claim: silent capture (what the impls compute); whether a renamed program compiles is rustc's verdict; #![no_std] is not built - instead the real "
+                note=E1_NOTE + " Restricted claim: silent capture (what the impls compute); whether a renamed program compiles is rustc's verdict (reported: this is how the defect repaired by 25236d4 - "
+                     "types / const parameters / items in scope called like the generated locals - was found); #![no_std] is not built - instead the real "
                      "expansion of a corpus is scanned natively for paths through std / alloc (sampling, said so in the evidence).",
                 tech="Kani/CBMC bounded model checking of macro-generated impls under hostile names and scopes"),
     "C15": dict(engine="E1 kani-gen", ref="DESIGN.md §6 C15",
@@ -163,7 +164,7 @@ def main():
         ],
         "checks": [],
         "notes": "See DESIGN.md. Exit codes: 0 held on everything explored, 1 VIOLATION (natively replayed), 2 broken check / unconfirmed counterexample. "
-                 "known_findings.json lists the genuine defects found (one left open, C09, printed as KNOWN-FINDING) and the nine fix: commits made in /repo.",
+                 "known_findings.json lists the genuine defects found (one left open, C09, printed as KNOWN-FINDING) and the ten fix: commits made in /repo.",
         "not_applicable": [],
     }
     for pid in props:
